@@ -75,6 +75,11 @@ package schedule
 //@ fieldfunc doAtSchedule.doAt
 //@ pure
 
+//@ func (s *StartSync) IsStarted
+//@ props C01 C02
+//@ modifies nothing
+//@ ensures result == s.started
+
 //@ func (s *StartSync) MarkStarted
 //@ props C01 C02
 //@ may_panic s.started
@@ -199,3 +204,34 @@ package schedule
 //@ may_panic startedOf[s.scheds[0]]
 //@ ensures wfComposite(s) && held(s.rwMu) == 0 && startedOf[s.scheds[0]]
 //@ at call s.scheds[0].Start assert [first-part-starts-at-the-given-time] arg(startAt) == startAt0
+
+// ---------------------------------------------------------------- unlimited (time-bounded, token count unknown)
+
+//@ func NewUnlimited
+//@ props C02
+//@ ensures typeis(result, *unlimitedSchedule) && fresh(result.(*unlimitedSchedule)) && result.(*unlimitedSchedule).duration == duration
+//@ ensures !result.(*unlimitedSchedule).started && !once(result.(*unlimitedSchedule).startOnce) && result.(*unlimitedSchedule).finish != nil
+
+//@ func (s *unlimitedSchedule) Start
+//@ props C02
+//@ requires s.started == once(s.startOnce) && s.finish != nil
+//@ may_panic s.started
+//@ ensures [finish-is-start-plus-duration] *s.finish == startAt + s.duration && s.started && once(s.startOnce)
+//@ modifies s.started, s.startOnce, *s.finish
+
+//@ func (s *unlimitedSchedule) Next
+//@ props C02
+//@ requires s.started == once(s.startOnce) && s.finish != nil
+//@ ensures [finish-time-is-fixed-once-started] imp(old(once(s.startOnce)), *s.finish == old(*s.finish))
+//@ ensures [token-only-before-the-finish-time] imp(ok, tx < *s.finish && tx <= now && tx >= old(now))
+//@ ensures [exhausted-reports-the-finish-time] imp(!ok, tx == *s.finish && now >= *s.finish)
+//@ ensures s.started && once(s.startOnce)
+//@ modifies s.started, s.startOnce, *s.finish
+
+//@ func (s *unlimitedSchedule) Left
+//@ props C02
+//@ requires s.finish != nil
+//@ ensures [unknown-or-finished] result == -1 || result == 0
+//@ ensures [zero-only-after-the-finish-time] imp(result == 0, s.started && now >= *s.finish)
+//@ ensures [negative-only-while-running-or-unstarted] imp(result < 0, !s.started || old(now) < *s.finish)
+//@ modifies nothing
